@@ -140,11 +140,15 @@ def canary(ctx, c, real, spec):
         ls.run(real, bad)
     except Unsupported:
         return None
+    for r in getattr(ls, "presolved", []) or []:              # heavy functions: compared in forked children, results arrive solved
+        if r["st"] in ("failed", "undecided"):
+            return None
     for ob in ls.obs:
         st, _, _, _ = solve(ctx, ob)
         if st in ("failed", "undecided"):
             return None
-    return "canary: all %d obligations of %s discharge against a deliberately wrong spec (every result / stored value replaced)" % (len(ls.obs), c.qual)
+    n = len(ls.obs) + len(getattr(ls, "presolved", []) or [])
+    return "canary: all %d obligations of %s discharge against a deliberately wrong spec (every result / stored value replaced)" % (n, c.qual)
 
 
 def rename_params(fdef, old, new):
@@ -199,6 +203,18 @@ def verify_function(ctx, c, section, only_prop):
                                        "detail": "line %d: uses the module-level mutable object `%s`, which the contract does not list: results may depend on "
                                                  "earlier calls (hidden state)" % (line, nm), "props": c.props, "witness_families": c.d.get("families", []),
                                        "counterexample": {"name": nm, "line": line}})
+    # the contract speaks about the function's own body; callers get whatever the decorators return
+    for d_ in real.decorator_list:
+        dn = ast.unparse(d_)
+        base = dn.split("(")[0].split(".")[-1]
+        if base in ("property", "staticmethod", "classmethod", "setter", "getter", "deleter", "abstractmethod", "wraps", "override", "final"):
+            continue
+        memo = any(w in dn.lower() for w in ("cache", "memo", "lru"))
+        section["obligations"].append({"name": "%s/frame/decorator:%s" % (c.name, base), "status": C.FAILED if memo else C.UNREACHABLE, "backend": "closed-eval", "time_s": 0,
+                                       "goal": "%s is called as written (no wrapper between the callers and the body under contract)" % c.qual,
+                                       "detail": "line %d: decorated with @%s: %s" % (d_.lineno, dn[:80], "results are kept across calls (hidden state, shared objects)" if memo
+                                                 else "the wrapper is not under contract"),
+                                       "props": c.props, "witness_families": c.d.get("families", []), "counterexample": {"decorator": dn[:120]}})
     if c.mode == "trusted":
         section["trusted"].append("contract of %s assumed, body not verified: %s" % (c.qual, c.d.get("why", "")))
         return
